@@ -258,7 +258,7 @@ theorem yes_cover_is_a_branchfree_oriented_covering (s : DS.DSymData) (f : Facts
   obtain ⟨hb, hv, hc, _⟩ := C15.ptc_result_is_branchfree s cov hs hsz hF ho
   exact ⟨cov, ho, C15.ptc_result_is_oriented s cov hs.toValidTables hsz hF ho, hv, hc, hb⟩
 
-/-- **yes_cover_group_is_Z3_presented.**  For a valid D-symbol whose oriented cover is connected,
+/-- **yes_cover_group_is_Z3_presented.**  For a valid connected D-symbol,
     the orbifold fundamental group of the cover behind a `Yes` of the model is isomorphic to a
     presented group whose abelian invariants — model value of `abelian_invariants`, equal to the
     determinantal-divisor definition for relators over its generators — are `[0, 0, 0]`
@@ -266,9 +266,9 @@ theorem yes_cover_is_a_branchfree_oriented_covering (s : DS.DSymData) (f : Facts
 theorem yes_cover_group_is_Z3_presented (s : DS.DSymData) (f : Facts) (hf : FactsOf s f)
     (hs : DS.ValidSym s) (hsz : 1 ≤ s.size)
     (hF : ∀ oc fg, DS.orientedCover s = .ok oc → FG.fundamentalGroup oc = .ok fg → D3.FuelOK fg)
-    (hconn : ∀ oc, DS.orientedCover s = .ok oc → oc.view.isConnected = true)
+    (hconn : s.view.isConnected = true)
     (hyes : decideVerdict f = .yes) :
-    ∃ cov (gens srels : List (List Int)), D3.pseudoToroidalCover s = .ok (some cov) ∧
+    ∃ (cov : DS.DSymData) (gens srels : List (List Int)), D3.pseudoToroidalCover s = .ok (some cov) ∧
       Inv.abelianInvariants gens.length srels = .ok [0, 0, 0] ∧
       ((∀ w ∈ srels, ∀ g ∈ w, Inv.InRange gens.length g) →
         SpecC14.expected gens.length srels = [0, 0, 0]) ∧
@@ -276,6 +276,56 @@ theorem yes_cover_group_is_Z3_presented (s : DS.DSymData) (f : Facts) (hf : Fact
   obtain ⟨_, _, _, cov, _, _, _, _, ho, _, _⟩ := yes_carries_certificate s f hf hs.toValidTables hsz hF hyes
   obtain ⟨gens, srels, h1, h2, h3⟩ := C15.ptc_cover_group_presentation s cov hs hsz hF hconn ho
   exact ⟨cov, gens, srels, ho, h1, h2, h3⟩
+
+/-- **yes_certificate_sound** — the "independently checkable certificate" sentence of the
+    property as a theorem about the model (everything before `simplify`).  If the facts agree with
+    the models and the cascade says `Yes`, then for a valid connected D-symbol `s` (and `FuelOK`):
+    the model of `orbifold_invariant` returned a well-formed, reachable entry of the table, and the
+    model of `pseudo_toroidal_cover` returned a symbol `cov` which is
+    * a **finite covering** of `s`: `rows(t)·|oc|` chambers, `|oc| ∈ {|s|, 2|s|}`, valid complete
+      symbol, the projection `d ↦ (d−1) mod |s| + 1` commutes with every operation
+      (`C15.CoverFacts`), all degrees those of the oriented cover;
+    * **oriented** and **branch-free** on every adjacent 2-orbit;
+    * with **fundamental group isomorphic to a subgroup `K` of finite index** `rows(t)` of the
+      orbifold group of the oriented cover (the stabiliser of row 0 of the monodromy action), and to
+      the presented group `⟨gens | srels⟩` whose **abelian invariants are `[0, 0, 0]`** (model value
+      of `abelian_invariants` = determinantal-divisor definition for relators over the
+      generators): first homology free of rank 3.
+    The two facts behind `simplify` (it succeeded; canonical key of the cubic tiling) are part of
+    `decide_yes_iff` but have no model. -/
+theorem yes_certificate_sound (s : DS.DSymData) (f : Facts) (hf : FactsOf s f)
+    (hs : DS.ValidSym s) (hsz : 1 ≤ s.size) (hconn : s.view.isConnected = true)
+    (hF : ∀ oc fg, DS.orientedCover s = .ok oc → FG.fundamentalGroup oc = .ok fg → D3.FuelOK fg)
+    (hyes : decideVerdict f = .yes) :
+    f.simplifyOk = true ∧ f.keyIsCubic = true ∧
+    ∃ (inv : String) (cov : DS.DSymData),
+      orbifoldInvariant s = .ok inv ∧ inv ∈ Tables.euclideanInvariants ∧
+      Tab.wellFormed inv = true ∧ Tab.reachable inv = true ∧
+      D3.pseudoToroidalCover s = .ok (some cov) ∧
+      C15.CoverFacts s cov ∧
+      cov.view.isOriented = true ∧ DS.ValidSym cov ∧ cov.isCompletePartial = true ∧
+      (∀ i d, i < 3 → 1 ≤ d → d ≤ cov.size → cov.vPartial i (i + 1) d = .ok (some 1)) ∧
+      ∃ (oc : DS.DSymData) (fg : FG.FundGroup) (t : D3.Tab) (hsoc : DS.ValidSym oc) (hdim : 1 ≤ oc.dim)
+        (hfg : FG.fundamentalGroup oc = .ok fg) (hV : CosetP.Valid t fg.nrGenerators fg.relators [])
+        (gens srels : List (List Int)),
+        DS.orientedCover s = .ok oc ∧ cov.size = t.size * oc.size ∧
+        ((MulAction.stabilizer (Equiv.Perm (Fin t.size)) (⟨0, hV.pos⟩ : Fin t.size)).comap
+          (CoversP.rhoT hsoc hdim hfg hV)).index = t.size ∧
+        Nonempty (FGP.TGroup cov ≃*
+          ((MulAction.stabilizer (Equiv.Perm (Fin t.size)) (⟨0, hV.pos⟩ : Fin t.size)).comap
+            (CoversP.rhoT hsoc hdim hfg hV))) ∧
+        Nonempty (FGP.TGroup cov ≃* PresentedGroup (CosetP.relSet gens.length srels)) ∧
+        Inv.abelianInvariants gens.length srels = .ok [0, 0, 0] ∧
+        ((∀ w ∈ srels, ∀ g ∈ w, Inv.InRange gens.length g) →
+          SpecC14.expected gens.length srels = [0, 0, 0]) := by
+  obtain ⟨h3, h4, inv, cov, hinv, hmem, hw, hr, ho, hcf, _⟩ :=
+    yes_carries_certificate s f hf hs.toValidTables hsz hF hyes
+  obtain ⟨hb, hv, hc, _⟩ := C15.ptc_result_is_branchfree s cov hs hsz hF ho
+  obtain ⟨oc, fg, t, hsoc, hdim, hfg, hV, gens, srels, hoc, hsize, hidx, heK, heP, _, _, hai, hexp⟩ :=
+    C15.ptc_cover_group_is_selected_subgroup s cov hs hsz hF hconn ho
+  exact ⟨h3, h4, inv, cov, hinv, hmem, hw, hr, ho, hcf,
+    C15.ptc_result_is_oriented s cov hs.toValidTables hsz hF ho, hv, hc, hb,
+    oc, fg, t, hsoc, hdim, hfg, hV, gens, srels, hoc, hsize, hidx, heK, heP, hai, hexp⟩
 
 /-! ### open (not theorems): the statements, for the record -/
 
